@@ -1,10 +1,19 @@
 import GuppyVerif.Lemmas.C22
 /-! # C22 — Comptime tracing enforces ownership
 
-Theorems about `Model/TraceOwn.lean` for **all** traces (lists of create / use / borrow / mutate of any
-length, any ids), by induction over the trace with the invariant `Inv` of `Lemmas/C22.lean`.
-The specification side is independent of the step function's decisions: the ghost counter `uses`
-(never read by `step`) and the predicate `Leaky`. -/
+Which theorem is what:
+
+* **structural** (induction over arbitrary traces / shapes, invariant `Inv` of `Lemmas/C22.lean`):
+  `noncopyable_used_at_most_once`, `reuse_rejected`, `undroppable_leak_rejected`, `no_leak_accepted`,
+  `leaky_iff_never_used_partial`, `frozen_inherited_at_any_depth` (+ its two corollaries).
+* **table `decide`** over `Gen/C22FrozenList.lean` (regenerated each run; names from the AST, flags from calling the
+  real class): `frozen_rejects_all`.
+* **definitional** (the operation carries its verdict; kept because the tie compares exactly this verdict with the real
+  tracer, but they prove nothing beyond the model's definition): `frozen_mutation_rejected`, `copyable_reuse_accepted`.
+
+The ghost counter `uses` is never read by `step`; `Leaky` is stated on the tracer's own `used` flag, and
+`leaky_iff_never_used_partial` connects it to the ghost counter for non-copyable objects. `Op.reset` may be issued
+anywhere in a trace (a superset of what the tracer does), which only strengthens the ∀-trace theorems. -/
 namespace GuppyVerif.TraceOwn
 
 /-- **C22 (at most once)**: after any successful trace, every non-copyable object has been used at most
@@ -35,6 +44,24 @@ theorem undroppable_leak_rejected (ops : List Op) (s : State) (h : run State.emp
   have : (List.range s.next).any s.unused = true :=
     List.any_eq_true.mpr ⟨id, List.mem_range.mpr hlt, hun⟩
   simp [trace, h, finish, this]
+
+/-- `Leaky` (the tracer's flag) coincides with the independent ghost count for the objects that matter:
+    a non-copyable object is flagged unused iff it has not been used since creation / last hand-back.
+    (partial: for copyable objects the flag is sticky while the count keeps growing.) -/
+theorem leaky_iff_never_used_partial (ops : List Op) (s : State) (h : run State.empty ops = .ok s) (id : Nat) (o : Obj)
+    (ho : s.objs id = some o) (hc : o.copyable = false) : o.used = false ↔ o.uses = 0 := by
+  have := (inv_run inv_empty ops h).once id o ho hc
+  rcases this with ⟨hle, hiff⟩
+  constructor
+  · intro hu
+    rcases Nat.lt_or_ge o.uses 1 with hlt | hge
+    · omega
+    · have h1 : o.uses = 1 := by omega
+      rw [hiff.mpr h1] at hu; cases hu
+  · intro h0
+    cases hu : o.used
+    · rfl
+    · have := hiff.mp hu; omega
 
 /-- conversely a successful trace without such an object passes the final check -/
 theorem no_leak_accepted (ops : List Op) (s : State) (h : run State.empty ops = .ok s)
